@@ -2001,6 +2001,13 @@ public:
 	m_unchanged_vars -= v;
       }
     }
+    // to's variables get new values: the constraints remembered over
+    // their old values must not be applied.
+    for (auto const&v: to) {
+      if (!v.get_type().is_bool()) {
+	m_unchanged_vars -= v;
+      }
+    }
   }
   
   void expand(const variable_t &x, const variable_t &new_x) override {
@@ -2016,9 +2023,18 @@ public:
     if (x.get_type().is_bool()) {
       m_bool_to_lincsts.set(new_x, m_bool_to_lincsts.at(x));
       m_bool_to_refcsts.set(new_x, m_bool_to_refcsts.at(x));
-      // REVISIT: do nothing in m_bool_to_bools is not precise but sound.
+      // new_x is overwritten: forget the Booleans implied by its old
+      // value and the facts "if b is true then new_x is true".
+      // REVISIT: not remembering that new_x implies what x implies is
+      // not precise but sound.
+      m_bool_to_bools -= new_x;
+      forget_references_to_bool(new_x);
     } else {
-      if (m_unchanged_vars.at(x)) {
+      // new_x is overwritten: the constraints remembered over its old
+      // value must not be applied.
+      const bool x_unchanged = m_unchanged_vars.at(x);
+      m_unchanged_vars -= new_x;
+      if (x_unchanged) {
 	mark_unchanged(new_x);
       }
     }
